@@ -418,3 +418,28 @@ Section NP.
     exists s', dec md fuel n (mk a o p l) = Err InvalidLength s'.
   Proof. intros T Hf Hs Hp. exact (proj1 noprefix_all n x T fuel Hf Hs a o l p Hp). Qed.
 End NP.
+
+(* ---------- C05: the declared maximum reaches the reader, and is enforced at the position ---------- *)
+
+Definition carries_max (e : dexp) (m : option N) : Prop :=
+  match e with EVarBytes m' | EString m' | EVarArray _ _ m' => m' = m | _ => False end.
+
+Theorem bound_carried A t s n r :
+  resolve_size A s false = EOk n ->
+  exists e, decode_array A (AVar t (Some s)) r = EOk e /\ carries_max e (Some n).
+Proof.
+  intros H. cbn [decode_array]. rewrite H. cbn [ebind]. unfold decode_variable.
+  destruct t; eexists; (split; [reflexivity|reflexivity]).
+Qed.
+
+Theorem position_over_max md rec lf A t s n e a o w rest l :
+  decode_array A (AVar t (Some s)) UseAlias = EOk e -> resolve_size A s false = EOk n ->
+  len w = 4 -> n < be_dec w ->
+  eval_dexp md rec lf e (mk a o (w ++ rest) l) = Err InvalidLength (mk a (o + 4) rest l).
+Proof.
+  intros He Hn Hw Hlt. cbn [decode_array] in He. rewrite Hn in He. cbn [ebind] in He. unfold decode_variable in He.
+  destruct t; inversion He; subst e; cbn [eval_dexp]; unfold bind;
+    try (rewrite (read_variable_array_over_max _ _ _ a o w rest l n lf Hw Hlt); reflexivity).
+  - unfold read_string, bind. rewrite (read_variable_bytes_over_max a o w rest l n Hw Hlt). reflexivity.
+  - rewrite (read_variable_bytes_over_max a o w rest l n Hw Hlt). reflexivity.
+Qed.
